@@ -915,21 +915,49 @@ func c02Race(c *Ctx) {
 	m1 := tlvMsg(tlvOp{tState, b1(1)}, tlvOp{tMethod, b1(0)})
 	rounds := c.Pick(25, 400)
 	ldb.take() // the accessory's own entity, stored when the fixture was built
-	stored := 0
-	var first string
+	stored, dependent := 0, 0
+	var first, dependentFirst string
 	for k := 0; k < rounds && stored == 0; k++ {
 		addrA, addrB := fmt.Sprintf("10.3.%d.1:7000", k%250), fmt.Sprintf("10.3.%d.2:7000", k%250)
 		f.Conn(addrA)
 		f.Conn(addrB)
 		cl := newRefSRPClient(rand.New(rand.NewSource(int64(k))), "Pair-Setup", "999-99-999")
 		m3 := tlvMsg(tlvOp{tState, b1(3)}, tlvOp{tPubKey, cl.Abytes()}, tlvOp{tProof, randBytes(r, 64)})
+		// both connections send their first request at the same moment; then connection 1 answers ITS challenge with
+		// the right setup code. Whatever connection 2 does, that is accepted — unless the two are not independent
 		var wg sync.WaitGroup
+		first2 := make([][]byte, 2)
+		begin := make(chan struct{})
+		for n, ad := range []string{addrA, addrB} {
+			wg.Add(1)
+			go func(n int, ad string) {
+				defer wg.Done()
+				<-begin
+				_, first2[n], _, _ = f.Do(ad, "POST", "/pair-setup", "application/pairing+tlv8", m1)
+			}(n, ad)
+		}
+		close(begin)
+		wg.Wait()
+		long := 1
+		if items, ok := refTlvParse(first2[0]); ok && len(tlvGet(items, tSalt)) == 16 {
+			honest := newRefSRPClient(rand.New(rand.NewSource(int64(1000+k))), "Pair-Setup", f.pin)
+			if proof, err := honest.Respond(tlvGet(items, tSalt), tlvGet(items, tPubKey)); err == nil {
+				_, resp, _, _ := f.Do(addrA, "POST", "/pair-setup", "application/pairing+tlv8", tlvMsg(tlvOp{tState, b1(3)}, tlvOp{tPubKey, honest.Abytes()}, tlvOp{tProof, proof}))
+				if it, ok := refTlvParse(resp); !ok || tlvHas(it, tError) || !tlvHas(it, tProof) {
+					dependent++
+					long = 12
+					if dependentFirst == "" {
+						dependentFirst = fmt.Sprintf("round %d: connection 1 answered the challenge it was given with the right setup code and got %s", k, hx(resp))
+					}
+				}
+			}
+		}
 		start := make(chan struct{})
 		wg.Add(2)
 		go func() {
 			defer wg.Done()
 			<-start
-			for t := 0; t < 3; t++ {
+			for t := 0; t < 3*long; t++ {
 				f.Do(addrA, "POST", "/pair-setup", "application/pairing+tlv8", m1)
 				f.Do(addrA, "POST", "/pair-setup", "application/pairing+tlv8", m3)
 			}
@@ -938,7 +966,7 @@ func c02Race(c *Ctx) {
 			defer wg.Done()
 			<-start
 			f.Do(addrB, "POST", "/pair-setup", "application/pairing+tlv8", m1)
-			for t := 0; t < 40; t++ {
+			for t := 0; t < 40*long; t++ {
 				f.Do(addrB, "POST", "/pair-setup", "application/pairing+tlv8", m5)
 			}
 		}()
@@ -955,6 +983,11 @@ func c02Race(c *Ctx) {
 		c.Violate("pair-setup stored a pairing without a valid setup-code proof and authenticated key exchange in this exchange", id,
 			map[string]interface{}{"connection_1": "start, then proof messages with a valid SRP key and a random proof", "connection_2_at_the_same_time": "start, then key exchanges sealed under the all-zero key carrying the neutral element as long-term key", "rounds": rounds},
 			"store unchanged", first)
+	} else if dependent > 0 {
+		// no pairing was stored, but the exchanges of two connections are not independent of each other, which is
+		// what HcModel/PairSetup.lean (one state per connection) and every C02 theorem assume
+		c.Mismatch("pairsetup-race", id, map[string]interface{}{"two_connections": "first requests sent at the same moment", "rounds": rounds, "rounds_with_interference": dependent},
+			"the proof of connection 1 for its own challenge is accepted (state 4, accessory proof)", dependentFirst)
 	}
 	c.Count(id, true, "stream:race")
 }
